@@ -322,6 +322,17 @@ def split_file(path, parts):
     return [f"{path}.part{i}" for i in range(parts)]
 
 
+def kvs(line):
+    """key=value tokens of a harness output line (tokens without '=' are ignored: a crashing harness may
+    interleave other output with its last line)."""
+    out = {}
+    for tok in line.split()[1:]:
+        if "=" in tok:
+            k, v = tok.split("=", 1)
+            out[k] = v
+    return out
+
+
 def run_parallel(cmds, timeout=900):
     """cmds: list of argv lists. Returns list of (rc, stdout)."""
     def one(c):
@@ -366,6 +377,7 @@ class Check:
         self.cov = {"states": 0, "transitions": 0, "traces_validated_against_impl": 0,
                     "evaluations": 0, "distinct_nontrivial": 0, "samples": [], "rule": "",
                     "phases": []}
+        Check.current = self      # check.py reports violations already found if the machinery fails later
         self.assumptions = []
         self.violations = []
         self.known_hits = []
